@@ -226,7 +226,7 @@ func strsEqFold(a, b []string) bool {
 
 func runC01(c *sim.Ctx) {
 	s := c.Src
-	prof := world.Profile{PageSizes: world.AllPageSizes, MaxTables: 3, RowsLo: 0, RowsHi: 250, Fancy: 4, DDL: true, Vacuum: true,
+	prof := world.Profile{PageSizes: world.AllPageSizes, MaxTables: 3, RowsLo: 0, RowsHi: 250, Fancy: 4, DDL: true, Vacuum: true, TextBoolDefaults: true,
 		Boundary: true, LongKeys: 2, WithoutRow: 3, IndexesHi: 2, Exprs: true, DbStat: true}
 	switch s.Weighted([]int{6, 3, 1, 1}, "profile") {
 	case 3: // many small tables: sqlite_master itself becomes a multi-level tree
